@@ -118,6 +118,7 @@ impl Engine for CacheEngine {
         rec.stat(format!("frontend={}", first[1]));
         rec.stat(format!("mode={}", first[2]));
         let mut snap = wx.snapshot();
+        let mut tracker = SeenTracker::begin();
         for line in it {
             let w: Vec<&str> = line.split_whitespace().collect();
             let out = wx.op(line);
@@ -127,6 +128,10 @@ impl Engine for CacheEngine {
             rec.stat(format!("op={opname}/{}", if cls.starts_with('h') { "handle" } else { cls }));
             if out != "bad-op" && !opname.starts_with("src.") && opname != "dump" { rec.nontrivial = true; }
             let after = wx.snapshot();
+            // ---- oracle of C01 (sequential part): one stable handle per key, also for the handles loaders were given
+            let goi_filled = SeenTracker::goi_targets();
+            for f in tracker.after_op(&wx, line, &after) { rec.oracle_fail(f); }
+            if !goi_filled.is_empty() { rec.stat("loader-get-or-insert"); }
             // ---- oracle: the statement of C02 on the snapshots
             let key = if w.len() >= 3 { Some((w[1].to_string(), unhexs(w[2]))) } else { None };
             let added: Vec<_> = after.keys().filter(|k| !snap.contains_key(*k)).cloned().collect();
@@ -139,8 +144,9 @@ impl Engine for CacheEngine {
                     let own = key.clone().unwrap();
                     let ok = out.starts_with("ok ") || opname == "goi";
                     if opname == "load" && ok && !after.contains_key(&own) { rec.oracle_fail(format!("load-not-cached `{line}` succeeded but the key is absent")); }
-                    if opname == "load" && !ok && added.contains(&own) { rec.oracle_fail(format!("failed-load-cached `{line}` failed but cached its own key")); }
-                    if opname == "owned" && added.contains(&own) { rec.oracle_fail(format!("load-owned-cached `{line}` cached its own key")); }
+                    // (a key a loader filled itself with get_or_insert is not an addition of the load)
+                    if opname == "load" && !ok && added.contains(&own) && !goi_filled.contains(&own) { rec.oracle_fail(format!("failed-load-cached `{line}` failed but cached its own key")); }
+                    if opname == "owned" && added.contains(&own) && !goi_filled.contains(&own) { rec.oracle_fail(format!("load-owned-cached `{line}` cached its own key")); }
                     if opname == "goi" {
                         if !snap.contains_key(&own) && !(added.len() == 1 && added[0] == own) && out != "bad-op" { rec.oracle_fail(format!("goi-wrong-add `{line}` added {added:?}")); }
                         if snap.contains_key(&own) && !added.is_empty() { rec.oracle_fail(format!("goi-wrong-add `{line}` on a present key added {added:?}")); }
